@@ -3043,7 +3043,16 @@ func remainderGuardRule(c *Ctx, r *Result, rule string, floor int) {
 				continue
 			}
 			cmp, ok := ifi.Cond.(*ssa.BinOp)
-			if !ok || (cmp.Op != token.LSS && cmp.Op != token.LEQ) {
+			if !ok {
+				continue
+			}
+			// cur < bound, or mirrored: bound > cur
+			cur, bound := cmp.X, cmp.Y
+			switch cmp.Op {
+			case token.LSS, token.LEQ:
+			case token.GTR, token.GEQ:
+				cur, bound = cmp.Y, cmp.X
+			default:
 				continue
 			}
 			region := edgeRegion(b, b.Succs[0])
@@ -3057,7 +3066,7 @@ func remainderGuardRule(c *Ctx, r *Result, rule string, floor int) {
 				for _, in := range blk.Instrs {
 					switch x := in.(type) {
 					case *ssa.Slice:
-						if x.Low != nil && x.High == nil && stripConv(x.Low) == stripConv(cmp.X) && isBytesOrString(x.X.Type()) {
+						if x.Low != nil && x.High == nil && stripConv(x.Low) == stripConv(cur) && isBytesOrString(x.X.Type()) {
 							rem = x
 						}
 					}
@@ -3094,7 +3103,7 @@ func remainderGuardRule(c *Ctx, r *Result, rule string, floor int) {
 			if fb == nil {
 				fb = c.FB(fn)
 			}
-			d := fb.lin(cmp.Y).add(fb.lenLin(rem.X), -1)
+			d := fb.lin(bound).add(fb.lenLin(rem.X), -1)
 			if !d.isConst() {
 				continue
 			}
@@ -3368,4 +3377,9 @@ func init() {
 	registry["C04"].Rules = append(registry["C04"].Rules, rule("C04.18"))
 	registry["C10"].Meta.Rules["C10.18"] = txt + " (shared with C04.18)"
 	registry["C10"].Rules = append(registry["C10"].Rules, rule("C10.18"))
+}
+
+func init() {
+	registry["C12"].Meta.Rules["C12.19"] = "heap objects are padded to 8 bytes and no further: " + registry["C06"].Meta.Rules["C06.2"] + " - the test and the padding use the same modulus (shared with C06.2: in encodeHeapCollection `offset%16 != 0` in front of `8 - offset%8` adds 8 bytes after every element that ends on an odd multiple of 8, and every later element of the collection is no longer found)"
+	registry["C12"].Rules = append(registry["C12"].Rules, func(c *Ctx, r *Result) { aliasRule(c, r, "C06", c06padding, "C06.2", "C12.19") })
 }
